@@ -12,7 +12,7 @@
    reader core) and the stdlib-derived TLS message parsers. *)
 From Coq Require Import List NArith ZArith Arith Bool Lia.
 From GmsmVerif Require Import Gen.DecConsts Lib.Outcome Dec.Access Dec.AccessProofs Dec.DecSpec
-  Dec.BerModel Dec.BerProofs Dec.BerDer Dec.ByteModels Dec.ByteProofs
+  Dec.BerModel Dec.BerProofs Dec.BerDer Dec.BerFuel Dec.BerSize Dec.ByteModels Dec.ByteProofs
   Dec.Asn1Model Dec.Asn1Proofs Dec.Asn1Inst Dec.Asn1InstProofs.
 Import ListNotations.
 Local Open Scope nat_scope.
@@ -45,6 +45,19 @@ Proof.
   intros b o e bud' Hb H. split; [exact (readObject_depth b o e bud' Hb H)|exact (readObject_extent b o e bud' Hb H)].
 Qed.
 Print Assumptions C18_ber2der_depth_capped.
+
+(* the recursion depth is the cap, not the fuel: every fuel above maxBERDepth + 2 gives the result of the capped run *)
+Theorem C18_ber2der_fuel_independent :
+  forall b fuel, bytes_ok b -> ber_fuel <= fuel -> ber2der_with fuel None b = ber2der b.
+Proof. exact ber2der_fuel_independent. Qed.
+Print Assumptions C18_ber2der_fuel_independent.
+
+(* memory: the output is never longer than twice the input (inputs below 2^30 bytes; the driver checks the same
+   bound on every call of the real function) *)
+Theorem C18_ber2der_output_size :
+  forall b out, bytes_ok b -> (N.of_nat (length b) < 1073741824)%N -> ber2der b = Ok out -> length out + 2 <= 2 * length b.
+Proof. exact ber2der_output_size. Qed.
+Print Assumptions C18_ber2der_output_size.
 
 (* ber2der is the identity on DER: every well-formed DER value (Dec/DecSpec.v: one-octet identifiers,
    minimal definite lengths below 2^31, proper nesting, at most maxBERDepth constructed levels) is
